@@ -96,8 +96,15 @@ Tags(S, o, a) ==
    \cup (IF k = "rmsg" /\ Len(a.ev) = 2 /\ a.vc = <<>> /\ S.val[t].k = "block" THEN {"throttledAtConc"} ELSE {})
    \cup (IF k = "rmsg" /\ S.val[t].k = "block" /\ a.vc # <<>> THEN {"parkedBelowConc:" \o ToString(ParkedOf(S, S.val[t].gen))} ELSE {})
    \cup (IF k = "rel" /\ a.res = "ok" THEN {"released"} ELSE {})
-   \cup {"vc:" \o a.vc[i].w \o (IF a.vc[i].dl > 0 THEN ":timeout" ELSE "") \o (IF a.vc[i].vd # "" THEN ":vdata" ELSE "") : i \in DOMAIN a.vc}
+   \cup {"vc:" \o a.vc[i].w : i \in DOMAIN a.vc}
+   \cup {IF a.vc[i].dl > 0 THEN "vcTimeout:" \o a.vc[i].w ELSE "" : i \in DOMAIN a.vc}
+   \cup {IF a.vc[i].vd # "" THEN "vcValidatorData" ELSE "" : i \in DOMAIN a.vc}
    \cup (IF k = "reg" THEN {"reg:" \o a.res} ELSE {})
+   \cup (IF k = "reg" /\ a.res = "ok" /\ o.opt # "" THEN {"regType:" \o o.opt} ELSE {})
+   \cup (IF k = "reg" /\ a.res = "ok" /\ o.v = "weird" THEN {"regWeird"} ELSE {})
+   \cup (IF k = "lp" /\ closedH /\ (\E p \in Conn(S) : t \in S.rsub[p]) THEN {"closedListPeersEmptyWithPeers"} ELSE {})
+   \cup (IF k = "close" /\ a.res = "outstanding" /\ NEvh(S, t) = 1 /\ NSubs(S, t) = 0 /\ NRel(S, t) = 0 /\ Cardinality({i \in DOMAIN S.evh : S.evh[i].t = t}) >= 2
+           THEN {"closeBusyLastOfTwoHandlers"} ELSE {})
    \cup (IF k = "unreg" THEN {"unreg:" \o a.res} ELSE {})
    \cup (IF k = "reg" /\ a.res = "ok" /\ S.vgen > 0 THEN {"regAgainAfterUnreg"} ELSE {})
    \cup (IF k \in {"pub", "rmsg"} /\ t \in Topics /\ S.val[t].k # "none" /\ (\E i \in DOMAIN S.h : S.h[i].t = t /\ S.h[i].closed) THEN {"validatorSurvivesRejoin"} ELSE {})
